@@ -27,6 +27,23 @@ class LazyStruct:
     def __init__(self, ex, db, crate, ty, path='self'):
         self.ex = ex; self.db = db; self.crate = crate; self.ty = ty; self.path = path; self.cache = {}
 
+    def gen_inner(self, t, name, depth=0):
+        """value of a std wrapper's type argument: Option / array / integer are materialised, anything else is opaque"""
+        info = (t or {}).get('info', {}); disp = (t or {}).get('display', '')
+        targs = [self.db.ty(self.crate, x['ty']) for x in info.get('args', []) if isinstance(x, dict) and 'ty' in x]
+        if info.get('k') in ('uint', 'int'):
+            return self.ex.fresh(name.replace('.', '_'), info.get('bits', 64))
+        if info.get('k') == 'adt' and disp.startswith(('std::option::Option<', 'core::option::Option<')) and targs and depth < 3:
+            if self.ex.choose(2, name + '_is_none') == 0: return none()
+            return some(self.gen_inner(targs[0], name + '_some', depth + 1))
+        if info.get('k') == 'array' and depth < 3:
+            el = self.db.ty(self.crate, info.get('elem')) if info.get('elem') is not None else None
+            n = info.get('len')
+            if el is not None and isinstance(n, int) and n <= 8:
+                from mirsym.models import VecV
+                return VecV([self.gen_inner(el, f'{name}_{i}', depth + 1) for i in range(n)], 'array')
+        return Opaque(name)
+
     def proj_field(self, i):
         if i in self.cache: return self.cache[i]
         f = self.ty['info']['variants'][0]['fields'][i]
@@ -34,7 +51,10 @@ class LazyStruct:
         name = f'{self.path}.{f["name"]}'
         info = (t or {}).get('info', {})
         disp = (t or {}).get('display', '')
-        if info.get('k') == 'adt' and disp.startswith(('std::option::Option<', 'core::option::Option<')):
+        if info.get('k') == 'adt' and disp.startswith(('std::sync::Mutex<', 'std::cell::RefCell<', 'std::cell::Cell<', 'std::sync::RwLock<')):
+            targs = [self.db.ty(self.crate, x['ty']) for x in info.get('args', []) if isinstance(x, dict) and 'ty' in x]
+            v = BoxV(self.gen_inner(targs[0], name) if targs else Opaque(name))
+        elif info.get('k') == 'adt' and disp.startswith(('std::option::Option<', 'core::option::Option<')):
             v = none() if self.ex.choose(2, name + '_is_none') == 0 else some(Opaque(name))
         elif info.get('k') == 'adt' and len(info.get('variants', [])) == 1 and not disp.startswith(('std::', 'alloc::', 'core::', 'tokio::')) and info['variants'][0]['fields']:
             v = LazyStruct(self.ex, self.db, self.crate, t, name)
